@@ -9,10 +9,25 @@ shared container and, once the task has re-seeded (`s`), on the numpy global gen
 def Agree (rel : Nat → Bool) (s : Bool) (e1 e2 : Env) : Prop :=
   (∀ c, rel c = true → e1.shared c = e2.shared c) ∧ (s = true → e1.np = e2.np)
 
-theorem step_agree (seedOf : Nat → Nat) (rel : Nat → Bool) (s : Bool) (op : Op) (p : Priv) (e1 e2 : Env)
+/-- a task that deep-copies never changes the shared object graph -/
+theorem step_objs (sim : Nat) (seedOf : Nat → Nat) (p : Priv) (e : Env) (op : Op) :
+    (step true sim seedOf p e op).2.objs = e.objs := by
+  cases op with
+  | draw g => cases g <;> simp [step, Env.setRng]
+  | touch o v => simp [step]
+  | _ => rfl
+
+theorem exec_objs (sim : Nat) (seedOf : Nat → Nat) : ∀ (ops : List Op) (p : Priv) (e : Env),
+    (exec true sim seedOf ops p e).2.objs = e.objs := by
+  intro ops
+  induction ops with
+  | nil => intro p e; rfl
+  | cons op r ih => intro p e; simp only [exec]; rw [ih, step_objs]
+
+theorem step_agree (sim : Nat) (seedOf : Nat → Nat) (rel : Nat → Bool) (s : Bool) (op : Op) (p : Priv) (e1 e2 : Env)
     (hok : opOk rel s op = true) (h : Agree rel s e1 e2) :
-    (step seedOf p e1 op).1 = (step seedOf p e2 op).1 ∧
-    Agree rel (s || op.isSeed) (step seedOf p e1 op).2 (step seedOf p e2 op).2 := by
+    (step true sim seedOf p e1 op).1 = (step true sim seedOf p e2 op).1 ∧
+    Agree rel (s || op.isSeed) (step true sim seedOf p e1 op).2 (step true sim seedOf p e2 op).2 := by
   obtain ⟨hsh, hnp⟩ := h
   cases op with
   | seed d =>
@@ -49,13 +64,21 @@ theorem step_agree (seedOf : Nat → Nat) (rel : Nat → Bool) (s : Bool) (op : 
     refine ⟨rfl, ?_, ?_⟩
     · intro c hc; exact hsh c hc
     · intro hs; simp only [Op.isSeed, Bool.or_false] at hs; exact hnp hs
+  | touch o v =>
+    refine ⟨rfl, ?_, ?_⟩
+    · intro c hc; exact hsh c hc
+    · intro hs; simp only [Op.isSeed, Bool.or_false] at hs; exact hnp hs
+  | look o =>
+    refine ⟨rfl, ?_, ?_⟩
+    · intro c hc; exact hsh c hc
+    · intro hs; simp only [Op.isSeed, Bool.or_false] at hs; exact hnp hs
 
-/-- a disciplined operation list cannot tell indistinguishable process states apart -/
-theorem exec_agree (seedOf : Nat → Nat) (rel : Nat → Bool) :
+/-- a disciplined operation list of a task that deep-copies cannot tell indistinguishable process states apart -/
+theorem exec_agree (sim : Nat) (seedOf : Nat → Nat) (rel : Nat → Bool) :
     ∀ (ops : List Op) (s : Bool) (p : Priv) (e1 e2 : Env),
       okOps rel s ops = true → Agree rel s e1 e2 →
-      (exec seedOf ops p e1).1 = (exec seedOf ops p e2).1 ∧
-      (∀ c, rel c = true → (exec seedOf ops p e1).2.shared c = (exec seedOf ops p e2).2.shared c) := by
+      (exec true sim seedOf ops p e1).1 = (exec true sim seedOf ops p e2).1 ∧
+      (∀ c, rel c = true → (exec true sim seedOf ops p e1).2.shared c = (exec true sim seedOf ops p e2).2.shared c) := by
   intro ops
   induction ops with
   | nil => intro s p e1 e2 _ h; exact ⟨rfl, h.1⟩
@@ -63,13 +86,13 @@ theorem exec_agree (seedOf : Nat → Nat) (rel : Nat → Bool) :
     intro s p e1 e2 hok h
     simp only [okOps, Bool.and_eq_true] at hok
     obtain ⟨h1, h2⟩ := hok
-    obtain ⟨hp, ha⟩ := step_agree seedOf rel s op p e1 e2 h1 h
+    obtain ⟨hp, ha⟩ := step_agree sim seedOf rel s op p e1 e2 h1 h
     simp only [exec]
     rw [hp]
-    exact ih (s || op.isSeed) (step seedOf p e2 op).1 _ _ h2 ha
+    exact ih (s || op.isSeed) (step true sim seedOf p e2 op).1 _ _ h2 ha
 
-theorem step_shared_rel (seedOf : Nat → Nat) (rel : Nat → Bool) (s : Bool) (op : Op) (p : Priv) (e : Env)
-    (hok : opOk rel s op = true) : ∀ c, rel c = true → (step seedOf p e op).2.shared c = e.shared c := by
+theorem step_shared_rel (cp : Bool) (sim : Nat) (seedOf : Nat → Nat) (rel : Nat → Bool) (s : Bool) (op : Op) (p : Priv) (e : Env)
+    (hok : opOk rel s op = true) : ∀ c, rel c = true → (step cp sim seedOf p e op).2.shared c = e.shared c := by
   intro c hc
   cases op with
   | write c' v =>
@@ -81,11 +104,13 @@ theorem step_shared_rel (seedOf : Nat → Nat) (rel : Nat → Bool) (s : Bool) (
   | read c' => rfl
   | comp k => rfl
   | emit => rfl
+  | touch o v => cases cp <;> rfl
+  | look o => rfl
 
 /-- a disciplined operation list leaves every relevant shared container as it found it -/
-theorem exec_shared_rel (seedOf : Nat → Nat) (rel : Nat → Bool) :
+theorem exec_shared_rel (cp : Bool) (sim : Nat) (seedOf : Nat → Nat) (rel : Nat → Bool) :
     ∀ (ops : List Op) (s : Bool) (p : Priv) (e : Env), okOps rel s ops = true →
-      ∀ c, rel c = true → (exec seedOf ops p e).2.shared c = e.shared c := by
+      ∀ c, rel c = true → (exec cp sim seedOf ops p e).2.shared c = e.shared c := by
   intro ops
   induction ops with
   | nil => intro s p e _ c _; rfl
@@ -94,7 +119,7 @@ theorem exec_shared_rel (seedOf : Nat → Nat) (rel : Nat → Bool) :
     simp only [okOps, Bool.and_eq_true] at hok
     simp only [exec]
     rw [ih _ _ _ hok.2 c hc]
-    exact step_shared_rel seedOf rel s op p e hok.1 c hc
+    exact step_shared_rel cp sim seedOf rel s op p e hok.1 c hc
 
 /-! ### from the program shape to the discipline -/
 
@@ -179,11 +204,28 @@ theorem clean_ops_ok (rel : Nat → Bool) (p : Prog) (h : p.clean rel = true) :
 
 /-- with clean tables, a program that only performs listed effects and is in day-loop form is clean
 (every container counts as relevant: nothing may be written) -/
+theorem conforms_dayLoopForm (T : Tables) (p : Prog) (hpc : T.prologueClean)
+    (hc : conforms T p = true) (hb : p.body ≠ []) : p.dayLoopForm = true := by
+  simp only [conforms, Bool.and_eq_true, List.all_eq_true] at hc
+  simp only [Prog.dayLoopForm, Bool.and_eq_true, Bool.or_eq_true, Bool.not_eq_true', noDraw, List.all_eq_true]
+  refine ⟨?_, Or.inl (by cases hbb : p.body with | nil => exact absurd hbb hb | cons _ _ => rfl)⟩
+  intro o ho
+  have := hc.2 o ho
+  unfold Tables.prologueClean at hpc
+  cases o <;> simp_all [Op.isDraw]
+
 theorem conforms_clean (T : Tables) (p : Prog) (hr : T.rngAllSeeded) (hm : T.noSharedMutation)
-    (hc : conforms T p = true) (hf : p.dayLoopForm = true) : p.clean (fun _ => true) = true := by
+    (hc' : conforms T p = true) (hf : p.dayLoopForm = true) : p.clean (fun _ => true) = true := by
+  have hc : p.allOps.all (fun o =>
+      match o with
+      | .draw g => T.rngSites.any (fun s => decide (s.gen = g))
+      | .write _ _ => !T.sharedMutations.isEmpty
+      | _ => true) = true := by
+    simp only [conforms, Bool.and_eq_true] at hc'
+    exact hc'.1
   have hop : ∀ o ∈ p.allOps, opOk (fun _ => true) true o = true := by
     intro o ho
-    simp only [conforms, List.all_eq_true] at hc
+    simp only [List.all_eq_true] at hc
     have := hc o ho
     cases o with
     | draw g =>
@@ -197,6 +239,8 @@ theorem conforms_clean (T : Tables) (p : Prog) (hr : T.rngAllSeeded) (hm : T.noS
     | read c => rfl
     | comp k => rfl
     | emit => rfl
+    | touch o v => rfl
+    | look o => rfl
   have hall : ∀ (l : List Op), (∀ o ∈ l, o ∈ p.allOps) → okOps (fun _ => true) true l = true := by
     intro l
     induction l with
